@@ -2,7 +2,7 @@
 from ._std import *
 from ._std import check_must_call_on_success
 from ..rules import ranges, wiring, units
-from ..rules.common import hir_walk, node_line, OPT, UNIT, vname, fold
+from ..rules.common import hir_walk, node_line, OPT, UNIT, vname, fold, tri
 
 EXPLANATION = (
     "Static table (R1), record-totality / sibling-agreement (R3), dominance (R11), wiring (R2) and unit (R4) rules on "
@@ -134,41 +134,52 @@ def check_limits(run, fx, rs):
         return
     pn = [p["name"] for p in f.params]
     run.check(pn == FIELDS, rule, "params", "parameters in field order", "is_valid_duration parameters are %s" % pn, f.loc)
-    ev = H.Evaluator(fx)
-    found = {}
-    for x in hir_walk(f.hir):
-        if isinstance(x, dict) and x.get("k") == "if":
-            c = x["cond"]
-            if c.get("k") == "bin" and c["op"] in (">=", ">") and c["a"].get("k") == "mcall" \
-                    and c["a"]["name"] in ("abs", "unsigned_abs"):
-                r = c["a"]["recv"]
-                nm = r["res"].get("local") if r.get("k") == "path" else None
-                kb = c["b"]
-                if kb.get("k") == "mcall" and kb.get("name") in ("abs", "unsigned_abs"):
-                    kb = kb["recv"]          # magnitude of a (positive) constant
-                try:
-                    k = ev.ev(kb, {})
-                    k = abs(k) if isinstance(k, int) else k
-                except Exception:
-                    k = None
-                if nm:
-                    found[nm] = (c["op"], k, node_line(c))
+    # the function folded (loops over the field vector executed) at each limit and one step inside it, for both signs,
+    # and on every pair of fields with opposite signs: values, not the shape of the comparisons
+    F = "temporal_rs::primitive::FiniteF64"
+
+    def call(vals):
+        return fold(H.Evaluator(fx), f, [H.V(F, (float(vals.get(n, 0)),)) for n in FIELDS])
     for nm in ("years", "months", "weeks"):
-        got = found.get(nm)
-        run.check(got is not None and got[0] == ">=" and got[1] == 2 ** 32, rule, nm,
-                  "abs(%s) %s %s" % (nm, got and got[0], got and got[1]),
-                  "IsValidDuration compares abs(%s) %s; the limit is >= 2^32 = 4294967296" % (nm, got and got[:2]),
-                  "%s:%s" % (f.file, got[2] if got else f.line))
-    got = found.get("normalized_seconds")
-    run.check(got is not None and got[0] == ">=" and got[1] == 2 ** 53, rule, "seconds",
-              "abs(normalizedSeconds) %s %s" % (got and got[0], got and got[1]),
-              "IsValidDuration compares the second total %s; the limit is >= 2^53" % (got and got[:2],), f.loc)
-    # the sign scan's vector
-    vec = None
-    for x in hir_walk(f.hir):
-        if isinstance(x, dict) and x.get("k") == "array" and len(x["es"]) == 10:
-            vec = [e["res"].get("local") if e.get("k") == "path" else None for e in x["es"]]
-    run.check(vec == FIELDS, rule, "sign-scan", "sign scan over all ten fields", "the sign scan covers %s" % vec, f.loc)
+        for sgn in (1, -1):
+            inside, at = call({nm: sgn * (2 ** 32 - 1)}), call({nm: sgn * 2 ** 32})
+            tri(run, rule, "%s/%s" % (nm, "+" if sgn > 0 else "-"), [inside, at], inside == ("val", True) and at == ("val", False),
+                "abs(%s) = 2^32 - 1 is valid, 2^32 is not" % nm,
+                "IsValidDuration(%s = %s(2^32 - 1)) = %s, (%s2^32) = %s; the limit is abs(%s) >= 2^32 -> invalid" %
+                (nm, "-" if sgn < 0 else "", inside[1], "-" if sgn < 0 else "", at[1], nm), f.loc)
+    per_s = {"days": 86400, "hours": 3600, "minutes": 60, "seconds": 1}
+    for nm, k in per_s.items():
+        for sgn in (1, -1):
+            top = (2 ** 53 - 1) // k
+            inside, at = call({nm: sgn * top}), call({nm: sgn * (top + 1)})
+            tri(run, rule, "%s/%s" % (nm, "+" if sgn > 0 else "-"), [inside, at], inside == ("val", True) and at == ("val", False),
+                "the largest %s below 2^53 s is valid, the next one is not" % nm,
+                "IsValidDuration(%s = %d) = %s, (%d) = %s; the limit is abs(total seconds) >= 2^53 -> invalid" %
+                (nm, sgn * top, inside[1], sgn * (top + 1), at[1]), f.loc)
+    # sub-second fields carry into the second total exactly
+    inside = call({"seconds": 2 ** 53 - 1, "milliseconds": 999, "microseconds": 999, "nanoseconds": 999})
+    at = call({"seconds": 2 ** 53 - 1, "milliseconds": 999, "microseconds": 999, "nanoseconds": 1000})
+    tri(run, rule, "subsecond-carry", [inside, at], inside == ("val", True) and at == ("val", False),
+        "2^53 s - 1 ns is valid, 2^53 s is not",
+        "IsValidDuration(2^53 - 1 s + 999 ms + 999 us + 999 ns) = %s, (+ 1000 ns) = %s; the sub-second fields must carry into the "
+        "total exactly" % (inside[1], at[1]), f.loc)
+    # sign uniformity: every ordered pair of fields with opposite signs is invalid
+    bad = []
+    und = False
+    for i, a in enumerate(FIELDS):
+        for b in FIELDS[i + 1:]:
+            for sa in (1, -1):
+                got = call({a: sa, b: -sa})
+                if got[0] == "opaque":
+                    und = True
+                elif got != ("val", False):
+                    bad.append("%s=%d,%s=%d -> %s" % (a, sa, b, -sa, got[1]))
+    if und:
+        run.ok(rule, "sign-scan", "IsValidDuration does not fold: not decided", f.loc, nontrivial=False)
+    else:
+        run.check(not bad, rule, "sign-scan", "all 90 mixed-sign field pairs are invalid",
+                  "IsValidDuration accepts fields of different signs: %s" % "; ".join(bad[:4]), f.loc)
+    run.exhaustive_tables.append("IsValidDuration mixed-sign pairs (45 pairs x 2)")
 
 
 def check_fields_unit_table(run, fx, rs):
